@@ -597,6 +597,8 @@ pub fn apply(w: &World, st: &mut St, op: Op) -> bool {
                 2 => st.votes.add(&Voter::new_stake_pool_key_hash(&kh(2)), &aid, &vp),
                 3 => st.votes.add_with_native_script(&Voter::new_constitutional_committee_hot_credential(&Credential::from_scripthash(&w.native[0].hash())), &aid, &vp, &NativeScriptSource::new(&w.native[0])),
                 5 => st.votes.add_with_plutus_witness(&Voter::new_constitutional_committee_hot_credential(&Credential::from_scripthash(&w.plutus[0].hash())), &aid, &vp, &plutus_witness(w, 0, 0, RedeemerTag::new_vote(), 500 + i as u64, None)),
+                // the same script as 5, voting in another role (DRep): two voters, one script hash
+                6 => st.votes.add_with_plutus_witness(&Voter::new_drep_credential(&Credential::from_scripthash(&w.plutus[0].hash())), &aid, &vp, &plutus_witness(w, 0, 0, RedeemerTag::new_vote(), 500 + i as u64, None)),
                 _ => st.votes.add_with_plutus_witness(&Voter::new_drep_credential(&Credential::from_scripthash(&w.plutus[2].hash())), &aid, &vp, &plutus_witness(w, 2, 0, RedeemerTag::new_vote(), 500 + i as u64, None)),
             };
             if r.is_err() {
@@ -669,8 +671,8 @@ pub fn config(i: usize) -> (&'static str, Params) {
             "prefer_pure_change"
         }
         2 => {
-            p.max_value_size = 70;
-            "max_value_size=70"
+            p.max_value_size = 100;
+            "max_value_size=100"
         }
         3 => {
             p.coins_per_byte = 1;
@@ -691,8 +693,8 @@ pub fn config(i: usize) -> (&'static str, Params) {
         }
         7 => {
             p.change_kind = 1;
-            p.max_value_size = 70;
-            "byron-change-address,max_value_size=70"
+            p.max_value_size = 100;
+            "byron-change-address,max_value_size=100"
         }
         8 => {
             p.legacy_api = true;
@@ -894,6 +896,7 @@ pub fn has_plutus(w: &World, st: &St) -> bool {
         || st.m.wds.contains(&5)
         || st.m.votes.contains(&4)
         || st.m.votes.contains(&5)
+        || st.m.votes.contains(&6)
         || st.m.proposals.iter().any(|i| *i >= 3)
         || st.m.certs.iter().any(|k| w.certs[*k].script == Some(2))
 }
@@ -1100,7 +1103,7 @@ pub fn ops_for(prop: &str) -> Vec<Op> {
         ],
         "C09" | "C10" => vec![
             Op::In(0, 0), Op::In(7, 0), Op::In(7, 1), Op::In(8, 0), Op::In(11, 0), Op::In(6, 0), Op::In(2, 0), Op::In(14, 0), Op::In(14, 2), Op::In(15, 0), Op::In(15, 1), Op::In(8, 3),
-            Op::Mint(0), Op::Mint(5), Op::Mint(2), Op::Mint(4), Op::Cert(25), Op::Cert(5), Op::Cert(26), Op::Cert(16), Op::Cert(27), Op::Wd(0), Op::Wd(1), Op::Wd(3), Op::Wd(5), Op::Vote(1), Op::Vote(3), Op::Vote(4), Op::Vote(5),
+            Op::Mint(0), Op::Mint(5), Op::Mint(2), Op::Mint(4), Op::Cert(25), Op::Cert(5), Op::Cert(26), Op::Cert(16), Op::Cert(27), Op::Wd(0), Op::Wd(1), Op::Wd(3), Op::Wd(5), Op::Vote(1), Op::Vote(3), Op::Vote(4), Op::Vote(5), Op::Vote(6),
             Op::Proposal(0), Op::Proposal(3), Op::Proposal(4), Op::MetaEmpty(0), Op::MetaEmpty(1),
             Op::ExtraDatum(0), Op::ExtraDatum(1), Op::ExtraDatum(3), Op::Meta, Op::Out(0),
         ],
@@ -1121,7 +1124,7 @@ pub fn core_ops_for(prop: &str) -> Vec<Op> {
         ],
         "C09" | "C10" => vec![
             Op::In(0, 0), Op::In(7, 0), Op::In(7, 1), Op::In(14, 0), Op::In(14, 2), Op::In(8, 0), Op::In(11, 0),
-            Op::Mint(0), Op::Mint(5), Op::Mint(2), Op::Mint(4), Op::Cert(25), Op::Cert(16), Op::Wd(1), Op::Wd(3), Op::Wd(5), Op::Vote(4), Op::Vote(5),
+            Op::Mint(0), Op::Mint(5), Op::Mint(2), Op::Mint(4), Op::Cert(25), Op::Cert(16), Op::Wd(1), Op::Wd(3), Op::Wd(5), Op::Vote(4), Op::Vote(5), Op::Vote(6),
             Op::Proposal(3), Op::Proposal(4), Op::ExtraDatum(0), Op::ExtraDatum(3),
         ],
         _ => ops_for(prop),
